@@ -17,7 +17,8 @@ RULE = ("grid: 8 modes x {explicit, default} x {Decimal, Fraction amount} x "
 ANCHORS = ("_floordiv_rounded", "_quantize_fraction", "Quantity.quantize",
            "Quantity.__round__")
 
-TYPES = ["Length", "Mass", "Velocity", "Duration", "DataVolume"]
+TYPES = ["Length", "Mass", "Velocity", "Duration", "DataVolume", "Volume",
+         "Energy"]
 Q_NUM = [1, 2, 3, 5, 7, 25]
 Q_DEN = [1, 2, 3, 4, 8, 10, 100]
 OFFSETS = ["mult", "tie", "tie+", "tie-", "third", "nine"]
